@@ -20,10 +20,10 @@ def Th.parked (th : Th) : Bool :=
 /-- the thread's call holds a clone that is counted in the clone counter -/
 def Th.holdsClone (th : Th) : Bool :=
   match th.op with
-  | .set _ | .get => true
+  | .set _ | .get | .sne _ | .update _ => true
   | .dropClone => th.pc == .start
   | .upgrade => th.res == .upgraded true
-  | .poll => false
+  | .poll | .nextNow => false
 /-- a dropping thread that found itself to be the last clone and has not closed the state yet -/
 def Th.closing (th : Th) : Bool := th.op == .dropClone && (th.pc == .closeBeforeMeta || th.pc == .closeHoldingMeta)
 /-- holds a state reference beyond its clone-counter reference -/
@@ -48,6 +48,8 @@ structure WInv (s : CS) : Prop where
   closing_nc : ∀ t, t < s.ths.length → (s.thAt t).closing = true → s.ncStrong = 0
   holders_le : s.ths.countP Th.holdsClone ≤ s.ncStrong
   st_ok : s.ncStrong + s.ths.countP Th.extraState ≤ s.stStrong
+  /-- no thread has observed a version that does not exist yet -/
+  obs_le : ∀ t, t < s.ths.length → s.version ≠ 0 → (s.thAt t).observed ≤ s.version
 
 theorem countP_set {γ} (p : γ → Bool) (l : List γ) (t : Nat) (x : γ) (ht : t < l.length) :
     (l.set t x).countP p + (if p l[t] then 1 else 0) = l.countP p + (if p x then 1 else 0) := by
@@ -104,7 +106,7 @@ theorem winv_adv (s s' : CS) (t : Nat) (hi : WInv s) (h : s.adv t = some s') : W
     have hget : s.ths[t] = th := by
       rcases List.getElem?_eq_some_iff.mp hth with ⟨_, h2⟩; exact h2
     simp only [hth] at h
-    obtain ⟨h1, h2, h3, h4, h5, h6, h7, hat, h9, h10, h13, h11, h12⟩ := hi
+    obtain ⟨h1, h2, h3, h4, h5, h6, h7, hat, h9, h10, h13, h11, h12, h14⟩ := hi
     have g1 := h1 t; have g3 := h3 t; have g4 := h4 t
     rw [hthe] at g1 g3 g4
     have c1 := fun x => countP_set Th.holdsClone s.ths t x ht
